@@ -11,9 +11,9 @@ CONSTANTS
   AllowCancel = TRUE
   Reconnect = TRUE
   MaxAttempts = 1
-  FixExitOrder = FALSE
+  FixExitOrder = TRUE
   FixReadErr = TRUE
-  FixStaleDelete = FALSE
+  FixStaleDelete = TRUE
 INVARIANT TypeOK
 INVARIANT OwnResult
 INVARIANT MailboxOwn
